@@ -29,6 +29,7 @@ Print Assumptions C20_tie_generated_queries.
 (* Solver hands its parameters' density (and the problem's bounds and dimension) to the Evolvent it creates *)
 Open Scope string_scope.
 Theorem C20_solver_passes_density : solver_evolvent_args =
-  ["problem.lowerBoundOfFloatVariables"; "problem.upperBoundOfFloatVariables"; "problem.numberOfFloatVariables"; "parameters.evolventDensity"].
-Proof. reflexivity. Qed.
+  ["problem.lowerBoundOfFloatVariables"; "problem.upperBoundOfFloatVariables"; "problem.numberOfFloatVariables"; "parameters.evolventDensity"] /\
+  evolvent_external_writes = [].      (* and nothing changes the density (or anything else) of that Evolvent afterwards *)
+Proof. split; reflexivity. Qed.
 Print Assumptions C20_solver_passes_density.
